@@ -54,6 +54,32 @@ def case_loop(rng: Any, ctx: Ctx, index: int) -> None:
     import gc
     name = gen.pick(rng, ['QURotationOperator', 'QURotationOperator', 'QURotationTransposeOperator', 'DiagonalOperator', 'IndexOperator',
                           'DenseBlockDiagonalOperator', 'SymmetricBandToeplitzOperator'])
+    if name.startswith('QURotation') and rng.integers(2):
+        # a tight loop on one structure (nothing else allocated in between but the data): <R x, y> = <x, R.T y> for each rotation
+        import jax.numpy as jnp
+        from furax.operators.qu_rotations import QURotationOperator
+        gen.begin_case(rng)
+        cls = gen.pick(rng, gen.STOKES[1:])
+        shape = gen.pick(rng, [(5,), (7,), (2, 3)])
+        dt = gen.case_dtype(rng)
+        s = cls.structure_for(shape, dt)
+        tol = (1e-9 if np.dtype(dt).itemsize == 8 else 2e-4)
+        worst, nrot = 0.0, int(rng.integers(20, 60))
+        with quiet():
+            for it in range(nrot):
+                rot = QURotationOperator(jnp.asarray(rng.uniform(-np.pi, np.pi, size=shape[-1:]), dtype=dt), s)
+                x, y = gen.rand_input(rng, s), gen.rand_input(rng, s)
+                lhs = float(furax.tree.dot(rot.mv(x), y))
+                rhs = float(furax.tree.dot(x, rot.T.mv(y)))
+                worst = max(worst, abs(lhs - rhs) / (1 + abs(lhs)))
+                del rot, x, y
+                gc.collect()
+        LOG.evaluated('C03.bilinear', nrot)
+        LOG.count('C03.loop', 'tight-rotation-loop', nrot)
+        if worst > tol * 50:
+            LOG.violation('C03', 'C03.bilinear', 'QURotationOperator.T/bilinear/successive-operators',
+                          f'<Rx,y> and <x,R.T y> differ by {worst:.3g} (relative) for one of {nrot} rotations built, used and dropped in turn')
+        return
     for it in range(int(rng.integers(6, 14))):
         op = generate(lambda: gen.operator_of_class(rng, name))
         if op is None:
